@@ -61,6 +61,22 @@ static const char *probe_names[PR_MAX] = {
 
 extern int __llvm_profile_write_file(void) __attribute__((weak));
 
+long faults_fired_total(void)
+{
+	long n = 0;
+	int i;
+	for (i = 0; i < FS_MAX; i++)
+		n += simk_stats.fault_fired[i];
+	return n;
+}
+
+/* a registration call whose only ways to fail are injected faults reported failure: was anything made to fail? */
+void unexplained_failure(const char *what, int id, long fired_before)
+{
+	if (faults_fired_total() == fired_before)
+		viol("ANY.spurious_failure", "%s (obj %d) reported failure although nothing was made to fail", what, id);
+}
+
 int reg_fault_arm(int id, int want, int site, int err)
 {
 	if (PL->obj[id].p[7] != want || RO[id].attempts++ != 0)
@@ -675,8 +691,10 @@ static int op_reg(struct rthr *th, int id, const struct pop *op)
 		IV_EVENT_INIT(ev);
 		ev->cookie = new_cookie(id);
 		ev->handler = h_event;
+		long ff0 = faults_fired_total();
 		ret = iv_event_register(ev);
 		if (ret != 0) {
+			unexplained_failure("iv_event_register", id, ff0);
 			PROBE[PR_REG_FAILED_EVENT]++;
 			obj_free_mem(id);
 			simk_log(101, OP_REG, -id - 1);
@@ -700,8 +718,10 @@ static int op_reg(struct rthr *th, int id, const struct pop *op)
 		IV_EVENT_RAW_INIT(ev);
 		ev->cookie = new_cookie(id);
 		ev->handler = h_raw;
+		long ff0 = faults_fired_total();
 		ret = iv_event_raw_register(ev);
 		if (ret != 0) {
+			unexplained_failure("iv_event_raw_register", id, ff0);
 			PROBE[PR_REG_FAILED_EVENT]++;
 			obj_free_mem(id);
 			simk_log(101, OP_REG, -id - 1);
